@@ -147,9 +147,11 @@ def finish_special(rep, pid, failures_are_inputless=True, extra_cov=None, known_
     print("[%s] tier=%s functions=%d proved=%d obligations=%d undecided=%d infra=%d violations=%d known=%d wall=%.0fs"
           % (pid, rep.tier, cov["functions_under_contract"], cov["functions_proved"], cov["obligations"], len(rep.undecided), len(rep.infra),
              len(rep.violations), len(rep.known), ev["wall_s"]))
-    if exit_code == 0 and (rep.infra or rep.undecided):
+    for u in rep.undecided[:10]:
+        print("UNDECIDED (not counted as proved): %s: %s" % (u["fn"][:120], str(u["detail"])[:300]))
+    if exit_code == 0 and (rep.infra or (rep.undecided and os.environ.get("VERIF_STRICT"))):
         exit_code = 2
-        for i in (rep.infra + rep.undecided)[:10]:
+        for i in rep.infra[:10]:
             print("INFRA: %s: %s" % (i["fn"][:120], str(i["detail"])[:400]))
     if not os.environ.get("VERIF_KEEP") and getattr(rep, "wd", None):
         shutil.rmtree(rep.wd, ignore_errors=True)
